@@ -1740,6 +1740,10 @@ TARGETS = [
     Target("zk", strat_zk("clean"), run_zk, _cfgs_ec(), quick=4500, thorough=20000),
     Target("zk-sus", any_curve(strat_zk("suspect")), run_zk, _cfgs_ec(), quick=500, thorough=2000),
     Target("ped", any_curve(strat_ped), run_ped, _cfgs_ec(), quick=1000, thorough=5000),
+    # the 255-bit configuration: Curve25519 in Weierstrass form, the only selectable curve with cofactor 8 (x(R) ranges
+    # over several multiples of the group order) and a group order far below 2^bits(p)
+    Target("ecdsa-255", strat_pair("ecdsa"), run_pair, {"quick": ["p255"], "thorough": ["p255"]}, quick=1200, thorough=8000),
+    Target("ecss-255", strat_pair("ecss"), run_pair, {"quick": ["p255"], "thorough": ["p255"]}, quick=800, thorough=5000),
 ]
 
 def _class_pred(cls):
